@@ -60,6 +60,14 @@ def c14a(tree, ob):
         tgt = add._parent
         if not (isinstance(tgt, ast.Assign) and src(tgt.targets[0]) == 'self.' + timer):
             bad.append('timer id is not remembered')
+        # a reset RESTARTS the interval: whatever was running is stopped on every way through, also on one that arms nothing
+        # (a reset that leaves a running timer alone lets it fire up to a whole interval late: the silence after a
+        # transmission in mid-interval is then almost twice the negotiated time)
+        stop_nodes = {fv.node(c) for c in stops} | {fv.node(c) for c in calls_in(fv.func) if call_name(c) == 'glib.source_remove' and c.args and src(c.args[0]) == 'self.' + timer}
+        (always, wit) = fv.cfg.must_pass(fv.cfg.entry, fv.cfg.exit, stop_nodes, include_exc=False) if stop_nodes else (False, None)
+        if not always:
+            ob.violate(SESS, fv.qual, 'a way through {} without {}()'.format(reset, stop), 'the reset can return with the old timer still running: the interval is then not measured from this event '
+                       '(a message sent in mid-interval is followed by up to twice the negotiated keepalive time of silence; received traffic does not put off the idle timeout)', fv.func, path_text(wit or []), sure=True)
         if bad:
             ob.violate(SESS, fv.qual, src(add)[:90], '; '.join(bad), add)
         else:
@@ -140,6 +148,17 @@ def c14d(tree, ob):
             else:
                 ob.violate(SESS, qual, src(c), 'the keepalive timer is restarted by something other than a transmission: when the peer KEEPALIVEs arrive shortly before the own ones are due, '
                            'the own KEEPALIVE is postponed again and again and never sent', c)
+    # the timers are stopped by their own reset / timeout and by close() only: while the connection is open one of them is
+    # what eventually ends a session whose peer has fallen silent
+    STOPPERS = {'_idle_stop': ('Messenger._idle_reset', 'Messenger._idle_timeout', 'Messenger.close'), '_keepalive_stop': ('Messenger._keepalive_reset', 'Messenger.close')}
+    for (rel, qual, func) in tree.all_functions([SESS]):
+        for (stop, allowed) in STOPPERS.items():
+            for c in method_calls(func, stop, 'self'):
+                if qual in allowed:
+                    ob.site(SESS, c, '{} stops its timer'.format(qual))
+                else:
+                    ob.violate(SESS, qual, src(c), 'a session timer is stopped outside its reset / timeout handler and close(): with the timers off an endpoint that waits for its peer '
+                               '(a terminating session with a transfer still open) never closes once the peer falls silent', c, sure=True)
     fv = FuncView(tree, SESS, 'Messenger.send_message')
     calls = method_calls(fv.func, '_keepalive_reset', 'self')
     if calls and fv.cfg.must_pass(fv.cfg.entry, fv.cfg.exit, {fv.node(c) for c in calls}, include_exc=False)[0]:
